@@ -128,7 +128,7 @@ def install():
         "scope.reg", i=id(s), name=name, t=False, d=len(s._scope_stack),
         bl=len(s._tokens._buffer), ix=s._tokens._index, raised=x is not None))
     wrap(P, "_lex_type_lookup_func", lambda c, r, x, s, name: emit(
-        "scope.look", i=id(s), name=name, ans=r))
+        "scope.look", i=id(s), name=name, ans=r, raised=x is not None))
 
     T = c_parser._TokenStream
     orig_ts_init = T.__init__
@@ -141,10 +141,10 @@ def install():
 
     T.__init__ = ts_init
     wrap(T, "next", lambda c, r, x, s: emit(
-        "ts.next", i=id(s), lex=id(s._lexer), ix=c, tok=_tok(r)),
+        "ts.next", i=id(s), lex=id(s._lexer), ix=c, tok=_tok(r), raised=x is not None),
         before=lambda s: s._index)
     wrap(T, "reset", lambda c, r, x, s, mark: emit(
-        "ts.reset", i=id(s), lex=id(s._lexer), frm=c, to=mark),
+        "ts.reset", i=id(s), lex=id(s._lexer), frm=c, to=mark, raised=x is not None),
         before=lambda s, mark: s._index)
     wrap(T, "mark", lambda c, r, x, s: emit("ts.mark", i=id(s), lex=id(s._lexer), ix=r))
 
